@@ -219,6 +219,9 @@ def run(ctx):
         ctx.count("equal_descriptors", len(b["rgs"]) - len(set(g[0] for g in b["rgs"])))
         # standing assumptions of the theorems, checked on this dataset
         dcase = {"ds": ds}
+        if b["hypotheses_violated"]:
+            ctx.fail({"component": "model-hypotheses", "what": "hypothesis"}, dcase,
+                     "a hypothesis of the C06 theorems does not hold on this dataset: " + "; ".join(b["hypotheses_violated"]))
         if any(g[1] != len(g[2]) for g in b["rgs"]):
             ctx.fail({"component": "row-count-metadata", "what": "count"}, dcase,
                      "num_rows of a row group differs from the rows its chunks deliver: %r" % [(g[1], len(g[2])) for g in b["rgs"]])
